@@ -13,7 +13,7 @@ mutual
 def diagnose (prog : Program) (base M : DB) : Tree → Option String
   | .node (.fact .edb) pred args _ => if memL args (base.get pred) then none else some s!"fact-not-stored:{pred}"
   | .node (.fact .derived) pred args _ => if memL args (world base M pred) then none else some s!"derived-leaf-false:{pred}"
-  | .node (.trunc _) pred args _ => if memL args (world base M pred) then none else some s!"truncated-leaf-false:{pred}"
+  | .node (.trunc _) _ _ _ => none
   | .node (.neg _) pred _ _ => some s!"negation-node-as-proof:{pred}"
   | .node (.rule idx β) pred args kids =>
     match prog[idx]? with
@@ -36,7 +36,7 @@ def diagnoseBody (prog : Program) (base M : DB) (β : Bindings) : List Lit → L
     match k with
     | .node (.neg pat) kp ka _ =>
       if kp != a.rel then some s!"negation-relation-differs:{a.rel}"
-      else if pat != substituteAtom a β || ka != (substituteAtom a β).filterMap (fun | .conc v => some v | _ => none) then
+      else if pat != substituteAtom a β || ka != concPart (substituteAtom a β) then
         some s!"negation-pattern-differs:{a.rel}"
       else if !(world base M a.rel).all (fun t => !negBlockedBy β a t) then some s!"negation-leaf-has-match:{a.rel}"
       else diagnoseBody prog base M β ls ks
